@@ -89,6 +89,27 @@ func role(e paths.Event, v ssa.Value) string {
 				if hc, ok := x.High.(*ssa.Const); ok && hc.Value != nil && hc.Value.ExactString() == fmt.Sprint(arr.Len()) {
 					return fmt.Sprintf("make(k%d)", arr.Len())
 				}
+				// var buf [N]T; buf[:] - the same fresh zeroed buffer
+				if x.High == nil && len(arrayStores(al)) == 0 {
+					return fmt.Sprintf("make(k%d)", arr.Len())
+				}
+			}
+		}
+		// buf[lo:hi] of such a buffer
+		if al, ok := x.X.(*ssa.Alloc); ok && x.Low != nil && len(arrayStores(al)) == 0 {
+			if arr, ok := al.Type().Underlying().(*types.Pointer).Elem().Underlying().(*types.Array); ok {
+				hi := ""
+				if x.High != nil {
+					hi = role(e, x.High)
+					if hi == fmt.Sprintf("k%d", arr.Len()) {
+						hi = ""
+					}
+				}
+				lo := role(e, x.Low)
+				if lo == "k0" {
+					lo = ""
+				}
+				return fmt.Sprintf("make(k%d)[%s:%s]", arr.Len(), lo, hi)
 			}
 		}
 		lo, hi := "", ""
@@ -254,12 +275,21 @@ func callRole(e paths.Event, x *ssa.Call) string {
 			// beN(x[lo:hi]) reads the N/8 octets of x from lo: the same role as the hand-written composition
 			arg := e.Resolve(as[0])
 			if sl, ok := arg.(*ssa.Slice); ok {
-				if _, isAlloc := sl.X.(*ssa.Alloc); !isAlloc {
+				if al, isAlloc := sl.X.(*ssa.Alloc); !isAlloc {
 					off := "k0"
 					if sl.Low != nil {
 						off = role(e, sl.Low)
 					}
 					return name + "(" + role(e, sl.X) + "@" + off + ")"
+				} else if arr, isArr := al.Type().Underlying().(*types.Pointer).Elem().Underlying().(*types.Array); isArr && len(arrayStores(al)) == 0 {
+					// a local array used as the buffer: var head [4]byte; be16(head[2:4])
+					if hc, isK := sl.High.(*ssa.Const); !(sl.Low == nil && isK && hc.Value != nil && hc.Value.ExactString() == fmt.Sprint(arr.Len())) {
+						off := "k0"
+						if sl.Low != nil {
+							off = role(e, sl.Low)
+						}
+						return fmt.Sprintf("%s(make(k%d)@%s)", name, arr.Len(), off)
+					}
 				}
 			}
 			return name + "(" + role(e, arg) + "@k0)"
